@@ -116,3 +116,44 @@ func zzC33DecompressCertBombNotDrained() {
 	verifAssert(err != nil && len(zzAlerts) > 0, "bomb-refused-with-alert")
 	verifReach("end")
 }
+
+//verif:harness C33 post_handshake_and_parameters_hostile unwind=400 paths=200000 wall=900
+//verif:stub (*utls.Conn).sendAlert zzStubSendAlert
+//verif:expect end
+//verif:assume the resumption PSK derivation is opaque
+//verif:doc uTLS-reachable client paths fed with ARBITRARY parsed server messages (every field arbitrary, slices of length 0..2): handleNewSessionTicket from an arbitrary connection state (suite arbitrary, resumption secret present or not, cache present or not, lifetime from {0, 1, 7 d, 7 d + 1, 2^32-1}), and utlsReadServerParameters with arbitrary EncryptedExtensions (ALPS code point, settings, ALPN) on a connection with or without configured ApplicationSettings: each returns normally (nil or error), never panics.
+func zzC33PostHandshakeAndParametersHostile() {
+	zzAlerts = nil
+	n := verifChoice("slice-len", 3)
+	switch verifChoice("path", 2) {
+	case 0:
+		cfg := &Config{ServerName: "a.example", Time: zzFixedTime}
+		if verifBool("cache") {
+			cfg.ClientSessionCache = zzEmptyCache{}
+		}
+		cfg.SessionTicketsDisabled = verifBool("tickets-disabled")
+		c := &Conn{config: cfg, isClient: verifBool("is-client"), vers: VersionTLS13, cipherSuite: verifU16("suite")}
+		if verifBool("has-resumption-secret") {
+			c.resumptionSecret = []byte{1}
+		}
+		msg := &newSessionTicketMsgTLS13{}
+		verifFill("ticket", msg, n)
+		msg.lifetime = []uint32{0, 1, 604800, 604801, 0xffffffff}[verifChoice("lifetime", 5)]
+		_ = c.handleNewSessionTicket(msg)
+	case 1:
+		cfg := &Config{ServerName: "a.example"}
+		if verifBool("has-alps") {
+			cfg.ApplicationSettings = map[string][]byte{"h2": {1}}
+		}
+		c := &Conn{config: cfg, isClient: true, vers: VersionTLS12 + uint16(verifChoice("vers13", 2))}
+		if verifBool("alpn-negotiated") {
+			c.clientProtocol = "h2"
+		}
+		uc := &UConn{Conn: c}
+		hs := &clientHandshakeStateTLS13{c: c, uconn: uc}
+		ee := &encryptedExtensionsMsg{}
+		verifFill("ee", ee, n)
+		_ = hs.utlsReadServerParameters(ee)
+	}
+	verifReach("end")
+}
